@@ -34,8 +34,8 @@ CHECKS = {
         text="Every operation of a catalogue (array/PyTree checks, decorated calls of all styles, decorations sharing annotation objects, pickling, hook install/import/uninstall, print_bindings) x every call-out x 7 exception classes, then a probe battery whose verdict vector must equal the one recorded on the clean process state; plus seeded random histories with 0-3 faults and insertion runs (a base history of checks inside contexts must give the same verdicts with unrelated activity spliced in, also inside the live context).",
         note="Probe battery is finite; white-box flags (flatten mode, '?' label, _skip_instancecheck, cache_from_source identity) are read directly and reported."),
     "C18": dict(
-        engine="hooksim", cat="exploration", technique="deterministic simulation of run histories over one cache directory: real importlib + real files, simulated mtime clock, soft process restart, disk-fault injection (lost/failed/torn pyc writes, crash mid-run), model of expected instrumentation per run",
-        text="Seeded histories of 2-6 runs over a generated package forest with nested imports, hook subsets, checker changes (incl. a project-local checker package), source edits (same/different length, clock forward/backward, sources that do not compile), reloads, runs with dont_write_bytecode and disk faults (ENOSPC, lost/torn writes, deleted caches, crash at the k-th write); per run every completed module load must be instrumented iff the current hook covers it, by the current checker, with the current source's code.",
+        engine="hooksim", cat="exploration", technique="deterministic simulation of run histories over one cache directory: real importlib + real files, simulated mtime clock, soft process restart, disk-fault injection (lost/failed/torn pyc writes, crash mid-run), source edits landing during an in-flight import, baton-scheduled concurrent imports inside a run, model of expected instrumentation per run",
+        text="Seeded histories of 2-6 runs over a generated package forest with nested imports, hook subsets, checker changes (incl. a project-local checker package), source edits (same/different length, clock forward/backward, sources that do not compile), reloads, runs with dont_write_bytecode and disk faults (ENOSPC, lost/torn writes, deleted caches, crash at the k-th write), source edits that land right after an in-flight import read the old text, and 2-3 threads importing concurrently under a seeded baton scheduler (pre-emption at every traced line of the hook); per run every completed module load must be instrumented iff the current hook covers it, by the current checker, with the current source's code.",
         note="Process restart is simulated in-process (sys.modules/meta_path/caches purged); a seeded sample is cross-validated with real subprocesses in the thorough tier. Spy typecheckers are stubs."),
     "C11": dict(
         engine="hooksim", cat="exploration", technique="deterministic simulation of install/import/uninstall histories over a generated package forest with spy typecheckers; reference model of the instrumented set",
@@ -59,7 +59,7 @@ CHECKS = {
         note="Model trusted."),
     "C13": dict(
         engine="ctxsim", cat="exploration", technique="deterministic simulation: seeded ill-typed call families; the bindings at the failure instant are observed through a typechecker seam and compared with the parsed error message",
-        text="Failure at every parameter position / return value, both checkers, both values of remove_typechecker_stack; message stage, function name, blamed parameter and binding lines compared with the observed live state; misuse must surface as AnnotationError.",
+        text="Failure at every parameter position / return value, both checkers, both values of remove_typechecker_stack, also after a nested (recursive) well-typed call of the same function; message stage, function name, blamed parameter and binding lines compared with the observed live state; misuse must surface as AnnotationError.",
         note="Message parsing is trusted; bindings are observed, not modelled."),
     "C16": dict(
         engine="ctxsim", cat="exploration", technique="deterministic simulation: seeded multi-tree histories against a per-leaf-position binding model",
